@@ -223,6 +223,9 @@ func (s *seqExplorer) explore(path []call, afterNil int) {
 	for t := uint64(last + 1); t <= s.n; t++ {
 		s.explore(append(append([]call{}, path...), call{Adv: true, T: t}), 0)
 	}
+	// a target beyond 32 bits whose low 32 bits name the next document (document numbers are
+	// uint64 in the API, 32 bits wide inside): nothing is at or after it
+	s.explore(append(append([]call{}, path...), call{Adv: true, T: 1<<32 + uint64(last+1)}), 0)
 }
 
 func hitsOf(exp *ref.Content, field, term string, except map[uint32]bool) []ref.Hit {
@@ -513,7 +516,7 @@ func init() {
 	run.Register(&run.Def{
 		ID:          "C07",
 		Level:       "exploration",
-		Rule:        "bounded-exhaustive: every non-empty postings set P and EVERY exclusion set E over N documents (N<=5 quick, N<=7 thorough) x chunk sizes {1,2,3,N} x detail pattern {mixed: freq 1..3 with locations on even docs; plain: freq 1 without locations (single-hit encoding after a merge when |P|=1)} x segment {in-memory, mmap, merged} x all 8 detail-flag combinations x EVERY maximal call sequence of Next / Advance(t) for all t in (last returned, N] (explored as a tree; a successor is the replayed prefix + one call; after nil one more call of each kind must return nil); Count, ActualBitmap and DocNum1Hit right after creation; ReplaceActual(S) for every S subset of P\\E followed by every call sequence (N<=4 quick, N<=5 thorough); preallocation reuse: every ordered pair and triple over a family of 20 lists (2 segments x 5 (field,term) incl. single-hit, absent term, absent field x 2 exclusions) passing the previous PostingsList and PostingsIterator objects back in after 0/1/all calls, followed by every call sequence on the last one; iterator-only hand-over: for every ordered pair of the family the ITERATOR of list A (after 0/1/all calls, optionally after ReplaceActual) is passed as preallocation to a fresh list B while A stays in use - B iterates correctly, A still reports its own Count and hits, the bitmap given to ReplaceActual is not written to; plus deterministic large instances N in {1025,2049} x cardinality {1,1024,1025,N} x chunk modes {1024,1025,1026} iterated fully and with Advance around every chunk boundary. Only requested details are compared. Non-trivial = >= 2 non-excluded hits, or an exclusion on a list with >= 2 hits.",
+		Rule:        "bounded-exhaustive: every non-empty postings set P and EVERY exclusion set E over N documents (N<=5 quick, N<=7 thorough) x chunk sizes {1,2,3,N} x detail pattern {mixed: freq 1..3 with locations on even docs; plain: freq 1 without locations (single-hit encoding after a merge when |P|=1)} x segment {in-memory, mmap, merged} x all 8 detail-flag combinations x EVERY maximal call sequence of Next / Advance(t) for all t in (last returned, N] and for t = 2^32 + last + 1 (a target beyond 32 bits) (explored as a tree; a successor is the replayed prefix + one call; after nil one more call of each kind must return nil); Count, ActualBitmap and DocNum1Hit right after creation; ReplaceActual(S) for every S subset of P\\E followed by every call sequence (N<=4 quick, N<=5 thorough); preallocation reuse: every ordered pair and triple over a family of 20 lists (2 segments x 5 (field,term) incl. single-hit, absent term, absent field x 2 exclusions) passing the previous PostingsList and PostingsIterator objects back in after 0/1/all calls, followed by every call sequence on the last one; iterator-only hand-over: for every ordered pair of the family the ITERATOR of list A (after 0/1/all calls, optionally after ReplaceActual) is passed as preallocation to a fresh list B while A stays in use - B iterates correctly, A still reports its own Count and hits, the bitmap given to ReplaceActual is not written to; plus deterministic large instances N in {1025,2049} x cardinality {1,1024,1025,N} x chunk modes {1024,1025,1026} iterated fully and with Advance around every chunk boundary. Only requested details are compared. Non-trivial = >= 2 non-excluded hits, or an exclusion on a list with >= 2 hits.",
 		Assumptions: append([]string{"Advance targets are strictly beyond the last returned document (as the property states); ReplaceActual is applied before iteration starts and only to iterators that report an actual bitmap"}, batchAssumptions...),
 		Bounds:      map[string]string{"quick": "N<=5, ReplaceActual N<=4, reuse pairs+triples, large instances", "thorough": "N<=7, ReplaceActual N<=5, reuse pairs+triples with all flag pairs, large instances"},
 		New:         func() interface{} { return &PostCase{} },
